@@ -84,6 +84,19 @@ def check(rep, tier):
         hs = coq_list("(%s, %s)" % (fhex(h["temp"]), fhex(h["duration"])) for h in p["holds"])
         cases.append("(%s, %s, %s, %s, %s, %s, %s)" % (fhex(p["start"]), fhex(p["end"]), fhex(p["rate"]), fhex(p["t_tot"]), hs, fhex(cn), zlit(c_impl)))
         progs.append((p, cn))
+    # long programs (pallet-scale, days): the trigger is still the second at which the shelf is last at or above cnTemp (oracle only; the
+    # 1 s profile has a few 1e5 samples)
+    for (tt, hold_d, hold_T, cn_) in ([(240000.0, 3601.0, -5.0, -5.0), (240000.0, 3601.0, -5.0, -8.0)] if tier == "quick" else
+                                       [(240000.0, 3601.0, -5.0, -5.0), (240000.0, 3601.0, -5.0, -8.0), (90000.0, 12345.0, -10.0, -10.0), (500000.0, 7.0, -3.0, -20.0)]):
+        pL = dict(start=20, end=-50, rate=0.5 / 60, holds=[{"duration": hold_d, "temp": hold_T}], t_tot=tt, dt=2.0)
+        try:
+            cL = int(gen_opcond.build(pL, oc, cnTemp=cn_).cnt)
+            wantL = cont_trigger(pL, cn_)
+            rep.case(("long-program", tt, hold_d, cn_), True); rep.count("long-programs")
+            if abs(cL - wantL) > 3 + 1e-6:
+                rep.violation("trigger-time long program", "cnt = %d s but the shelf is last at or above cnTemp=%r at t=%r s (tolerance 3 s) for %s" % (cL, cn_, wantL, pL), dict(program=pL, cnTemp=cn_, cnt=cL, expected=wantL))
+        except Exception as e:
+            rep.violation("crash %s" % type(e).__name__, "cnt raises %r for %s cn=%r" % (e, pL, cn_), dict(program=pL, cnTemp=cn_))
     bad = []
     for ci in range(0, len(cases), 100):
         rc, out = common.coq_eval("c10_%d" % ci, HEAD % coq_list(cases[ci:ci + 100]), timeout=900)
